@@ -89,6 +89,8 @@ def run(chk, prog):
     chk.check("volatile" in g.get("type", "") and "bool" in g.get("type", ""), "R1", "%s:%d" % (g["file"].replace("/repo/", ""), g["line"]),
               "the flag is a volatile bool (%s)" % g.get("type"), "flag:type:%s" % g.get("type"))
     iv = A.strip(g["init"]) if "init" in g else None
+    if iv is not None and iv.get("k") == "InitListExpr" and len(iv.get("inits", [])) == 1:
+        iv = A.strip(iv["inits"][0])          # brace initialisation: abort{false}
     chk.check(iv is not None and iv.get("value") is False, "R1", "%s:%d" % (g["file"].replace("/repo/", ""), g["line"]), "the flag starts as false", "flag:init")
     # ---- R2 -------------------------------------------------------------------------------------
     writers, readers = [], []
